@@ -412,7 +412,23 @@ func c18Exec(x *Ctx) {
 				for _, e := range strings.Split(strings.TrimPrefix(filepath.Join(u.Outer, "canary.txt"), "/"), "/") {
 					second = append(second, e)
 				}
-				if len(second) <= 16 {
+				if dotu && r.Pct(40) {
+					// a create pipelined on the new fid of the walk that is still making it: wherever the create is
+					// caught, its name is resolved inside the tree (a named pipe called like a directory of the host's root)
+					tag += 2
+					ss := p.Write(&Msg{Type: Twalk, Tag: tag - 1, Fid: 0, Newfid: 8, Wname: first},
+						&Msg{Type: Tcreate, Tag: tag, Fid: 8, Name: "etc", Perm: 0x00200000 | 0o644, Mode: 0})
+					rt.YieldUntil(rt.SiteActor, func() bool { return allReplied(ss) || p.EOF })
+					if p.EOF {
+						x.Violate("x0-stalled", "the connection was dropped after a create pipelined behind a walk")
+						return
+					}
+					if cr := ss[1].Reply; cr != nil && cr.M != nil && cr.M.Type == Rcreate {
+						checkQid(cr.M.Qid, "Tcreate(named pipe \"etc\") on fid 8 pipelined behind the Twalk that creates fid 8")
+					}
+					call(&Msg{Type: Tclunk, Fid: 8})
+					x.Probe("create-pipelined-on-a-fid-being-walked")
+				} else if len(second) <= 16 {
 					tag += 3
 					ss := p.Write(&Msg{Type: Twalk, Tag: tag - 2, Fid: 0, Newfid: 8, Wname: first},
 						&Msg{Type: Twalk, Tag: tag - 1, Fid: 8, Newfid: 9, Wname: second},
